@@ -12,7 +12,7 @@ Not decided: byte-exact delivery, EOF/timeout reporting over schedules.
 """
 from rules import driver, core, r_path, r_mpt
 from rules.core import walk, key, const_val
-from props import tp
+from props import tp, common
 
 TRUSTED = ["clang 14 front end + CFG builder", "tool/lcbfacts.cc", "rules/r_path.py", "rules/r_mpt.py", "python3"]
 EV_FUNCS_PREFIX = ("tpt_ev_",)
@@ -239,6 +239,8 @@ def disable_enable_cases(rep, u, vals):
             res[what] = (d, e)
             if "unsure" in (d, e):
                 undec = "guard not evaluable for event=%s flags=0x%x" % ("TIMER" if evk == TIMER else "I/O", fl)
+            elif what == "tp_timer" and tmo == 0:
+                pass        # no timer is configured: switching the (possibly stale) timer off needs no counterpart
             elif d == "sure" and e != "sure":
                 bad = bad or "%s event, ONESHOT=%d DISPATCH=%d timeout=%d: the pre-handler disables %s but the post-handler does not enable it again " \
                              "(the task never sees that source again)" % ("timeout" if evk == TIMER else "I/O", one, disp, tmo, "the I/O registration" if what == "tp_data" else "the timer")
@@ -397,12 +399,17 @@ def run(rep, tier):
     lifecycle(rep, u, vals)
     rep.floor("pre/post combinations", disable_enable_cases(rep, u, vals), 10)
     from props import c16_audit
-    rep.floor("timer removals in tp_task_stop", c16_audit.stop_timer_rule(rep, u, vals), 1)
+    rep.floor("timer switch-off sites", c16_audit.stop_timer_rule(rep, u, vals), 4)
     rep.floor("(re-)registrations of the task's own event", c16_audit.own_event_flags_rule(rep, u), 3)
-    rep.floor("timer arming after a callback", c16_audit.timer_arm_rule(rep, u, vals), 1)
+    rep.floor("timer arming sites", c16_audit.timer_arm_rule(rep, u, vals), 2)
     rep.floor("errno overwrites of the event error", c16_audit.event_error_live_rule(rep, u), 1)
     rep.floor("positional transfers", c16_audit.seek_fallback_rule(rep, u), 2)
     rep.floor("re-arming calls in connect-ex", c16_audit.cursor_clobber_rule(rep, u), 1)
+    fl16 = tp.probe(tp.TASK_C, {"TP_F_DISPATCH": "TP_F_DISPATCH", "TP_F_ONESHOT": "TP_F_ONESHOT"}, "probe:task3")
+    rep.floor("re-arm mode tests", c16_audit.rearm_mask_rule(rep, u, fl16), 1)
+    rep.floor("event-error overrides", c16_audit.event_error_priority_rule(rep, u), 1)
+    uio = driver.load_units([common.hdr_unit("utils/io_buf.h", "utils/io_buf.h")])["utils/io_buf.h"]
+    c16_audit.window_clamp_rule(rep, uio)
     return driver.finish(
         rep, "other",
         "Static analysis of threadpool_task.c. Decided: %d registration calls agree on (event kind, record); single non-cyclic "
